@@ -207,9 +207,24 @@ def strip_comments(text):
     return "".join(out)
 
 
-def scan_forbidden():
+def transitive_imports(props_files):
+    """Lean files of the BRV library reachable from the property files through `import BRV.…`."""
+    seen = set()
+    todo = [Path(p) for p in props_files]
+    while todo:
+        p = todo.pop()
+        if p in seen or not p.exists():
+            continue
+        seen.add(p)
+        for m in re.finditer(r"^import\s+(BRV\.[\w.]+)", p.read_text(), re.M):
+            todo.append(LEAN / (m.group(1).replace(".", "/") + ".lean"))
+    return sorted(seen)
+
+
+def scan_forbidden(props_files=None):
     hits = []
-    for p in sorted((LEAN / "BRV").rglob("*.lean")):
+    files = transitive_imports(props_files) if props_files else sorted((LEAN / "BRV").rglob("*.lean"))
+    for p in files:
         code = strip_comments(p.read_text())
         for i, line in enumerate(code.splitlines(), 1):
             if FORBIDDEN.search(line):
